@@ -1090,6 +1090,13 @@ func corpusCL(cfg *config) []string {
 		"cl cmd=convert which=cwd F=decoder:s:" + hexStr("trackaddict") + ",encoder:s:" + hexStr("trackaddict") + " C=~ H=~ io=ff in=" + hexStr(cvDecoy),
 		"cl cmd=convert which=home F=~ C=~ H=~ io=fo in=" + hexStr(cvDecoy),
 		"cl cmd=gopro.laptimes which=cwd F=~ C=root.verbose:i:" + hexStr("0") + " H=~ io=ff in=" + hexStr("0.0000000,0.0000000;0.0000100,0.0000000"),
+		// negative bearings are bearings (-30 is 330, not 30), from the file and from the flag
+		"cl cmd=gopro.laptimes which=explicit F=~ C=gopro.laptimes.start.latitude:f:" + hexStr("50.857952") + ",gopro.laptimes.start.longitude:f:" + hexStr("-0.752617") +
+			",gopro.laptimes.start.bearing:f:" + hexStr("-30") + ",gopro.laptimes.start.distance:i:" + hexStr("10") + ",gopro.laptimes.tolerance:f:" + hexStr("0.5") +
+			" H=~ io=ff in=" + hexStr("50.8579520,-0.7526170"),
+		"cl cmd=gopro.laptimes which=explicit F=bearing:f:" + hexStr("-150") + " C=gopro.laptimes.start.latitude:f:" + hexStr("50.857952") + ",gopro.laptimes.start.longitude:f:" + hexStr("-0.752617") +
+			",gopro.laptimes.start.bearing:f:" + hexStr("0") + ",gopro.laptimes.start.distance:i:" + hexStr("10") + ",gopro.laptimes.tolerance:f:" + hexStr("0.5") +
+			" H=~ io=ff in=" + hexStr("50.8579520,-0.7526170"),
 		// recorded finding: a start line at a bearing of 45 degrees (its ends lie at azimuths 135 and -45)
 		"cl cmd=gopro.laptimes which=explicit F=~ C=gopro.laptimes.start.latitude:f:" + hexStr("50.8580") + ",gopro.laptimes.start.longitude:f:" + hexStr("-0.7526") +
 			",gopro.laptimes.start.bearing:f:" + hexStr("45") + ",gopro.laptimes.start.distance:i:" + hexStr("10") + ",gopro.laptimes.tolerance:f:" + hexStr("0.5") +
